@@ -214,7 +214,8 @@ package vmm
 // copy-on-write page; then the page's leaf entry points at the frame that was just allocated and
 // temporarily mapped, with RW set and CoW cleared and every other bit kept; the temporary page
 // received the 4096 bytes the faulting page showed; nothing else in memory changed; the page's
-// TLB entry was invalidated. cowEntry: the entry after resolution.
+// TLB entry was invalidated - after the new entry was in place (a flush before the store would
+// let the stale read-only translation be loaded again). cowEntry: the entry after resolution.
 //@ spec faultPageAddr() uintptr = uintptr(cpu.cr2) &^ 4095
 //@ spec cowEntry(e uint64, f mm.Frame) uint64 = (((e &^ 0x200) | 3) &^ 0x000ffffffffff000) | (uint64(f) << 12)
 //@ func pageFaultHandler(regs *gate.Registers)
@@ -229,6 +230,7 @@ package vmm
 //@   ensures copy: forall(i, uintptr, i < 4096 ==> mem8(tempMappingAddr + i) == old(mem8(faultPageAddr() + i)))
 //@   ensures rest: forall(a, uintptr, a - tempMappingAddr >= 4096 && a - pte3(faultPageAddr()) >= 8 ==> mem8(a) == old(mem8(a)))
 //@   ensures flush: cpu.flushes == old(cpu.flushes) + 1 && cpu.flushLog[old(cpu.flushes)] == faultPageAddr()
+//@   at call flushTLBEntryFn 1: assert published: mem64(pte3(faultPageAddr())) == cowEntry(old(mem64(pte3(faultPageAddr()))), mapLogFrame[old(mapCalls)])
 
 // reserveZeroedFrame: on success the shared frame is the one just allocated, it was zero-filled
 // through the temporary mapping, and from then on it is protected
